@@ -290,6 +290,7 @@ func init() {
 			seenCreate := 0
 			lib := map[string]*wire.File{} // what direct library calls on the same bytes produce
 			faithful := "same"
+			optionsAgree := "same" // C12: the query parameters select the same options as the library routes
 			for i, op := range ops {
 				margs = append(margs, op.margs...)
 				r := rs[i]
@@ -299,6 +300,9 @@ func init() {
 				}
 				if d := libraryVerdict(lib, op, r, body, created[:min(seenCreate, len(created))]); d != "" && faithful == "same" {
 					faithful = fmt.Sprintf("differ:request %d (%s): %s", i, op.Op, d)
+					if op.Op == "create" && !strings.Contains(op.CT, "json") && op.Query != "" && optionsAgree == "same" {
+						optionsAgree = fmt.Sprintf("differ:POST /files/create?%s: %s", op.Query, d)
+					}
 				}
 				s := fmt.Sprint(r.Status)
 				switch {
@@ -342,6 +346,7 @@ func init() {
 			}
 			o.Case("http:seq", strings.Join(obs, "|"), margs...)
 			o.Case("prop:http-faithful", faithful, margs...)
+			o.Case("prop:http-options-agree", optionsAgree, margs...)
 			o.Case("prop:http-status-documented", "same", fmt.Sprint(h))
 			o.Case("prop:http-log-isolation", "same", fmt.Sprint(h))
 			o.Case("prop:http-error-body-json", "same", fmt.Sprint(h))
